@@ -81,6 +81,25 @@ class Gen:
         nexts = list(dict.fromkeys(nexts))
         return [pre + bytes([b]) + self.word(b"xy", 0, 1) for b in nexts]
 
+    def failchain(self):
+        """multi-hop failure chains through interior (non-match) nodes: a long pattern whose proper suffixes are only
+        PREFIXES of other patterns, ending in a short pattern; first bytes both above and below each other"""
+        self.note("failchain")
+        alpha = self.rng.choice([b"abc", b"azm", b"zab", b"bca"])
+        core = self.word(alpha, 2, 4)
+        lead = bytes([self.rng.choice(b"azmq")])
+        ps = [lead + core + bytes([self.rng.choice(b"xq")])]
+        for i in range(1, len(core)):
+            if self.rng.random() < 0.7:
+                ps.append(core[i:] + bytes([self.rng.choice(b"qyw")]) * self.rng.randint(1, 2))
+        ps.append(core[-1:])
+        if self.rng.random() < 0.4:
+            ps.append(core[-2:])
+        if self.rng.random() < 0.2:
+            ps.append(b"")
+        self.rng.shuffle(ps)
+        return ps
+
     def casey(self):
         self.note("casey")
         alpha = b"aAbBzZ@[`{" + bytes([0xC1, 0xE1])
@@ -92,7 +111,8 @@ class Gen:
                 for _ in range(self.rng.randint(1, 6))]
 
     def pats(self, empty=True, kinds=None):
-        kinds = kinds or ["tiny", "tiny3", "nest", "akb", "suffix_chain", "fanout_small", "casey", "random_bytes"]
+        kinds = kinds or ["tiny", "tiny3", "nest", "akb", "suffix_chain", "failchain", "failchain", "fanout_small", "casey",
+                          "random_bytes"]
         k = self.rng.choice(kinds)
         if k == "tiny":
             return self.tiny(b"ab", 4, 4, empty)
@@ -104,6 +124,9 @@ class Gen:
             return self.akb()
         if k == "suffix_chain":
             return self.suffix_chain()
+        if k == "failchain":
+            ps = self.failchain()
+            return ps if empty else ([p for p in ps if p] or [b"ab"])
         if k == "fanout_small":
             return self.fanout(self.rng.choice([2, 3, 4, 5, 8, 9]))
         if k == "fanout":
